@@ -8,7 +8,7 @@ TRUSTED_BASE = ["Lean 4.33 kernel", "which Python operations can raise and what 
 RULE = ("grammar-aware mutations of genuine blocks of every version (length field, block count, short/extended optional-block lengths incl. 510-digit lengths, pad blocks in any "
         "case with any data, non-ASCII / control / surrogate characters at every structural position, whitespace in the hex section, truncation at every length), random Unicode "
         "strings, every KBPK length 0..40; offered to unwrap, Header.load, KeyBlock(kbpk, str) and wrap(kbpk, str, key); distinct = distinct driver lines")
-NASTY = ["é", " ", "\x00", "\x7f", "\x1f", "\n", "\t", " ", "\ud800", "\udfff", "\U0001f600", "٣", "３", "ß", "ı", "ſ", "K", "ǅ", "_", "-", "+", ".", "g", "G", "~", "\xff", "Ā"]
+NASTY = ["é", " ", "\x00", "\x7f", "\x1f", "\n", "\t", " ", "\ud800", "\udfff", "\U0001f600", "٣", "３", "ß", "ı", "ſ", "K", "ǅ", "_", "-", "+", ".", "g", "G", "~", "\xff", "Ā", "{", "}", "%", "\\", "'", '"']
 WATCHDOG_S = 5.0
 
 
@@ -51,6 +51,8 @@ def mutations(rng, kb, ver):
         "KS00FF" + "0" * 509, "KS00FF" + "0" * 510, "KS00800" + "1" * 255, "KSFF" + "x" * 10, "KS05é", "KS05\ud800", "K", "KS", "KS0", "KS0G", "KSg0", "\x00\x0004",
         "PB04", "PB08é000", "pb08\ud800000", "Pb05\x00", "pB06\n\t", "PB0C" + "é" * 8, "PB00020010" + "é" * 6, "PB03", "PB", "P", "PB0", "PBFF",
         "Kı04", "KS08ab\x7fd", "KS 4", "KS+4", "KS-4", "T104T204T304", "T104T104",
+        # ids / data made of formatting metacharacters, alone and together with a length or data fault (error messages are built from them)
+        "{S03", "{S", "{}", "{}03", "{}04", "}S0000", "{0}0", "%s03", "%d", "%s", "{S0G", "S{FF", "{{03", "}}03", "{S05\x00", "{S0002", "K}000200", "%(a)s03", "\\N03",
     ]
     for cb in crafted:
         for count in (1, 2):
